@@ -1433,6 +1433,18 @@ let alias_case (_input : string) (obs0 : string) : verdict =
   let obs, _ = split_flags_all obs0 in
   { model = "A ok"; oracle = (if obs = "A ok" then [] else [ ("C15", "a stored or by-value delivered string changed after its source buffers were overwritten: " ^ obs) ]) }
 
+(* ---- C14 / C13: hand-written target types outside the model's type grammar (no model: the Go side
+   compares with the plain twin type and checks the integrity of interface slots) ---- *)
+let exotic_case (_input : string) (obs0 : string) : verdict =
+  let obs, flags = split_flags_all obs0 in
+  let oracle = ref [] in
+  (if obs = "PANIC" || obs = "HANG" then oracle := ("C14", "unfolder crashed or hung on a hand-written target type: " ^ obs) :: !oracle);
+  (if starts_with obs "CORRUPT" then oracle := ("C14", "an interface slot of the target holds a value that does not implement it (unsafe write): " ^ obs) :: !oracle);
+  (match List.filter (fun x -> starts_with x "TWIN ") flags with
+   | x :: _ -> oracle := ("C13", "named target type unfolds differently from its plain twin: " ^ obs ^ " vs " ^ x) :: !oracle
+   | [] -> ());
+  { model = obs; oracle = !oracle }
+
 (* ---- C11: self-referential types (no model: the Go side compares original and copy) ---- *)
 let rec_case (_input : string) (obs0 : string) : verdict =
   let obs, _ = split_flags_all obs0 in
@@ -1480,7 +1492,7 @@ let fmt_handlers =
 let canon_obs (o : string) : string =
   if contains o "HANG" then "HANG" else if contains o "PANIC" then "PANIC" else o
 
-let handlers : (string * (string -> string -> verdict)) list = ("lru", lru_case) :: ("fold", fold_case) :: ("unfold", unfold_case) :: ("rtgo", rtgo_case) :: ("alias", alias_case) :: ("rec", rec_case) :: ("histfold", histfold_case) :: ("histunf", histunf_case) :: fmt_handlers
+let handlers : (string * (string -> string -> verdict)) list = ("lru", lru_case) :: ("fold", fold_case) :: ("unfold", unfold_case) :: ("rtgo", rtgo_case) :: ("alias", alias_case) :: ("rec", rec_case) :: ("exotic", exotic_case) :: ("histfold", histfold_case) :: ("histunf", histunf_case) :: fmt_handlers
 
 
 let () =
